@@ -87,10 +87,42 @@ def analyse_listing(repo: Repo, run: Run, interp, name: str):
                "" if ok else f"stage {i} of the listing is {s.kind}, not a filter: elements are transformed, "
                              f"materialised or reordered ({s.describe()[:120]})",
                facts={"stage": s.describe()[:200]}, nontrivial=False, line=fn.lineno)
-    # ---- R3 purity
-    run.ob("R3", MOD, name, "no side effects", not rec.effects,
-           "" if not rec.effects else
-           f"{name} / its predicates modify state: " + "; ".join(f"{e.kind} {sym.pretty(e.path or e.base)}.{e.key}" for e in rec.effects[:3]),
+    # ---- R3 purity: state the predicates read must not be modified by the listing or by the predicates themselves
+    read_attrs = set()
+    for s_ in stages:
+        if s_.fn is not None:
+            for x in sym.walk(s_.fn):
+                if x.op == "attr" and x.a[0] == SELF:
+                    read_attrs.add(x.a[1])
+        for c, _ in s_.cond:
+            for x in sym.walk(c):
+                if x.op == "attr" and x.a[0] == SELF:
+                    read_attrs.add(x.a[1])
+    relevant = []
+    for e in rec.effects:
+        pth = e.path if e.path is not None else e.base
+        cur = pth if e.kind != "attr-store" else T("attr", (pth, e.key))
+        while cur is not None and cur.op in ("attr", "sub"):
+            if cur.op == "attr" and cur.a[0] == SELF and (cur.a[1] in read_attrs or str(cur.a[1]).startswith("filter_")):
+                relevant.append(e)
+                break
+            cur = cur.a[0]
+        else:
+            if "<lambda>" in e.func or "<locals>" in e.func:
+                relevant.append(e)          # a predicate with any side effect
+    # helper methods the predicates call without being inlinable (loops / try): their effects are the predicate's
+    for s_ in stages:
+        if s_.fn is None:
+            continue
+        for x in sym.walk(s_.fn):
+            if x.op == "call" and x.a[0].op == "attr" and x.a[0].a[0] == SELF and x.a[0].a[1] in ci.methods:
+                hrec = interp.run(ci.module, ci.methods[x.a[0].a[1]], self_cls=ci)
+                relevant.extend(e for e in hrec.effects if sym.root_of(e.path if e.path is not None else e.base) == SELF)
+    run.ob("R3", MOD, name, "no side effects on what the predicates read", not relevant,
+           "" if not relevant else
+           f"{name} / its predicates modify state they depend on: " +
+           "; ".join(f"{e.kind} {sym.pretty(e.path or e.base)[:40]}.{e.key}" for e in relevant[:3]) +
+           ": the selection of an element depends on earlier elements or earlier requests",
            nontrivial=False, line=fn.lineno)
     # ---- R2 predicates
     got = []
@@ -103,7 +135,7 @@ def analyse_listing(repo: Repo, run: Run, interp, name: str):
             raise AnalysisError(f"{name}: predicate is not a lambda / inlinable method: {sym.pretty(fnt)[:80]}")
         nb = N(body)
         if not pipeline.in_language(nb):
-            if rec.effects:
+            if relevant:
                 continue        # already reported by R3: the predicate has side effects
             raise AnalysisError(f"{name}: predicate outside the recognised language: {sym.pretty(nb)[:120]}")
         got.append((norm_cond(s.cond), nb, s))
